@@ -16,10 +16,10 @@ extern uint32_t mvh_run_flags;
 
 enum { P_NWORKERS, P_NTHREADS, P_FANOUT, P_DEPTH, P_TREESEED, P_PARENT_FIRST, P_ATTR_PM, P_STACK_MODE,
        P_NULLID_PM, P_EXIT_PM, P_YIELD_PM, P_REAP_MASK, P_JOIN_ORDER, P_POISON_ATTR, P_STEALFN,
-       P_QUEUE_SIZE, P_DEF_STACK_KB, P_CANARY, P_BUFWORDS, P_NPARAMS };
+       P_QUEUE_SIZE, P_DEF_STACK_KB, P_CANARY, P_BUFWORDS, P_STACK_EXTRA, P_NPARAMS };
 static const char *const pnames[] = { "nworkers", "nthreads", "fanout", "depth", "treeseed", "parent_first",
   "attr_pm", "stack_mode", "nullid_pm", "exit_pm", "yield_pm", "reap_mask", "join_order", "poison_attr",
-  "stealfn", "queue_size", "def_stack_kb", "canary", "bufwords" };
+  "stealfn", "queue_size", "def_stack_kb", "canary", "bufwords", "def_stack_extra" };
 
 enum { R_JOIN = 0, R_TRYJOIN, R_TIMEDJOIN, R_DETACH_EARLY, R_DETACH_LATE, R_ATTR_DETACH, R_NREAP, R_NONE = 99 };
 
@@ -83,6 +83,8 @@ static void gen(mvsim_rng *r, long *p, int tier) {
   p[P_DEF_STACK_KB] = mvh_pick(r, dsk, 4);
   p[P_CANARY] = mvh_chance(r, 700);
   p[P_BUFWORDS] = mvh_range(r, 1, 16);
+  static const long ex[] = { 0, 0, 0, 8, 24, 1000, 4088 };
+  p[P_STACK_EXTRA] = mvh_pick(r, ex, 7);
 }
 
 /* ---- tree construction: prefix-stable in nthreads ---- */
@@ -397,7 +399,7 @@ static void run(const long *p, mvsim_runcfg *cfg, mvsim_runstats *st) {
   mvsim_begin_run(cfg);
   myth_globalattr_init(&ga);
   myth_globalattr_set_n_workers(&ga, (size_t)p[P_NWORKERS]);
-  myth_globalattr_set_stacksize(&ga, (size_t)p[P_DEF_STACK_KB] * 1024);
+  myth_globalattr_set_stacksize(&ga, (size_t)p[P_DEF_STACK_KB] * 1024 + (size_t)p[P_STACK_EXTRA]);
   myth_globalattr_set_bind_workers(&ga, 0);
   myth_init_ex(&ga);
   MVH_CHECK(myth_get_num_workers() == p[P_NWORKERS], "C15-NWORKERS", "myth_get_num_workers()=%d, requested %ld", myth_get_num_workers(), p[P_NWORKERS]);
